@@ -173,6 +173,39 @@ def run(ctx):
         cps = [p0, jax.tree_util.tree_map(lambda x: x + 1.5, p0), jax.tree_util.tree_map(lambda x: x - 2.0, p0)]
         asg = hyp_cluster.maximization_step(ale, cps, [(ids[k], dss[k], keys[k]) for k in range(len(dss))], fedjax.PaddedBatchHParams(batch_size=bs, num_batch_size_buckets=bk))
         ev.append({'e': 'Call', 'key': f'hyp_cluster assignment ({name}, regulariser {reg_lam})', 'out': tol(np.array([int(asg[k]) for k in ids]))})
+        # ... nor on the for_each_client backend (pmap re-orders clients by their number of padded batches)
+        from fedjax.core import for_each_client as fec_mod  # pylint: disable=g-import-not-at-top
+        if bk == 1:
+          with fec_mod.for_each_client_backend('pmap'):
+            ale_p = models.AverageLossEvaluator(island.per_example_loss, reg)
+          asg_p = hyp_cluster.maximization_step(ale_p, cps, [(ids[k], dss[k], keys[k]) for k in range(len(dss))], fedjax.PaddedBatchHParams(batch_size=bs, num_batch_size_buckets=bk))
+          ev.append({'e': 'Call', 'key': f'hyp_cluster assignment ({name}, regulariser {reg_lam})', 'out': tol(np.array([int(asg_p[k]) for k in ids]))})
+          # one cluster per client, centred on that client's data (every client has its own best cluster), clients listed
+          # smallest first: whatever the backend and the padded geometry, client k must be assigned cluster k
+          have = sorted([k for k in range(len(dss)) if len(dss[k])], key=lambda k: len(dss[k]))
+          centres = [island.params_tree([island.R(float(v)) for v in np.mean(np.array(c['inst']['data'][k], np.float64), axis=0)]) for k in have]
+          distinct = len({tuple(np.round(island.params_list(t), 6)) for t in centres}) == len(centres)
+          if len(have) >= 2 and distinct and reg_lam == 0.0:
+            for which, ev_ in (('jit', ale), ('pmap', ale_p)):
+              own = hyp_cluster.maximization_step(ev_, centres, [(ids[k], dss[k], keys[k]) for k in have], fedjax.PaddedBatchHParams(batch_size=bs, num_batch_size_buckets=bk))
+              ev.append({'e': 'Fact', 'name': 'EveryClientAssignedToItsOwnCentre', 'about': f'{name} geometry {(bs, bk)} backend {which}: {[int(own[ids[k]]) for k in have]}',
+                         'holds': [int(own[ids[k]]) for k in have] == list(range(len(have)))})
+      # Mime's full-batch server gradient with a regulariser: from a zero momentum trace, the trace after one round IS the
+      # server gradient = mean over all cohort examples of (w - x) + lambda w (the regulariser exactly once)
+      for reg_lam in (0.0, 0.5):
+        rec = algs.run_rounds(fedjax, 'mime', c, pad_bs=bs, buckets=bk, base=fedjax.optimizers.sgd(0.25, momentum=0.5), server_lr=1.0, reg=reg_lam)
+        if rec['error']:
+          ev.append({'e': 'Fact', 'name': 'Runs', 'about': f'mime with regulariser {reg_lam} {name}: {rec["error"]}', 'holds': False})
+          continue
+        w0 = np.array([float(island.frac(x)) for x in c['inst']['init']], np.float64)
+        allx = np.array([e_ for d_ in c['inst']['data'] for e_ in d_], np.float64).reshape(-1, len(w0))
+        want_g = (w0 - allx.mean(0) if len(allx) else np.zeros_like(w0)) + reg_lam * w0
+        trace = [np.asarray(x, np.float64).reshape(-1) for x in jax.tree_util.tree_leaves(rec['states'][1].opt_state)]
+        flat = np.concatenate(trace) if trace else np.zeros(0)
+        got_g = np.concatenate([flat[flat.size - len(w0):]]) if flat.size >= len(w0) else flat
+        okg = got_g.shape == want_g.shape and np.allclose(np.sort(got_g), np.sort(want_g), rtol=1e-5, atol=1e-6)
+        ev.append({'e': 'Fact', 'name': 'MimeServerGradientIsFullBatchGradientPlusRegulariserOnce', 'about': f'{name} geometry {(bs, bk)} regulariser {reg_lam}: trace {got_g.tolist()} expected {want_g.tolist()}',
+                   'holds': bool(okg)})
       # Mime / MimeLite rounds (server gradient from padded batches enters through the optimizer state / control variate)
       for aname in ('mime', 'mime_lite'):
         rec = algs.run_rounds(fedjax, aname, c, pad_bs=bs, buckets=bk, base=fedjax.optimizers.sgd(0.25, momentum=0.5), server_lr=1.0)
